@@ -417,8 +417,109 @@ def getterValue (kind : String) (j : Job) (w : String) : String :=
   let j' := { j with what := w }
   if kind = "series" then runSeries true j' else runEvents j'.cb j'
 
+/-! ## refused reads and partial loops (round 2, class L7)
+
+A getter that raises is a `setattr_on_read` property whose function did not return: nothing is stored, on the analyzer or
+anywhere else, and the next read computes again.  A refusal is an OUTCOME of the model (`err …` / `singular` lines; `Except`
+inside), the analyzer object is its immutable inputs plus the one-time cache. -/
+
+/-- a rendered outcome that is a refusal -/
+def isRefusal (v : String) : Bool := v.startsWith "err" || v == "singular" || v == "bad-op"
+
+/-- one read of a getter that may raise: a refusal is returned and NOTHING is stored -/
+def readE (value : String → String) (cache : List (String × String)) (w : String) :
+    String × List (String × String) :=
+  match cache.lookup w with
+  | some v => (v, cache)
+  | none => if isRefusal (value w) then (value w, cache) else (value w, (w, value w) :: cache)
+
+def readsE (value : String → String) : List (String × String) → List String → List String × List (String × String)
+  | cache, [] => ([], cache)
+  | cache, w :: ws =>
+    let r := readE value cache w
+    let rs := readsE value r.2 ws
+    (r.1 :: rs.1, rs.2)
+
+/-- one analyzer object: what the constructor stored (never written again) and the one-time cache -/
+structure Obj where
+  kind : String
+  inputs : Job
+  cache : List (String × String)
+
+def Obj.read (o : Obj) (w : String) : String × Obj :=
+  let r := readE (getterValue o.kind o.inputs) o.cache w
+  (r.1, { o with cache := r.2 })
+
+def Obj.reads : Obj → List String → List String × Obj
+  | o, [] => ([], o)
+  | o, w :: ws =>
+    let r := o.read w
+    let rs := Obj.reads r.2 ws
+    (r.1 :: rs.1, rs.2)
+
+/-- the per-channel loop of the getters (`for i in range(self._len_h)`): channel after channel, the first refused channel
+    ends the loop with its error; the results of the channels before it are dropped with the frame -/
+def loopChannels {β : Type} (f : Nat → Except String β) : List Nat → Except String (List β)
+  | [] => .ok []
+  | ch :: chs =>
+    match f ch with
+    | .error e => .error e
+    | .ok v =>
+      match loopChannels f chs with
+      | .error e => .error e
+      | .ok vs => .ok (v :: vs)
+
+/-- the first refused channel of a loop -/
+def firstRefused {β : Type} (f : Nat → Except String β) : List Nat → Option Nat
+  | [] => none
+  | ch :: chs => match f ch with
+    | .error _ => some ch
+    | .ok _ => firstRefused f chs
+
+/-- the FIR loop of an event-coded series input -/
+def firLoop (cur : Bool) (j : Job) : Except String (List (List Rat)) :=
+  loopChannels (fun ch => firChannel cur (nPadOf j) (evOf j ch) (dataOf j ch) j.off.toNat j.L) (List.range (max j.nch 1))
+
+/-! ## the entries of XᵀX are COUNTS (round 2, class L7: range of the design matrix's element type)
+
+`gram` is exact (`Int`).  `wrapInt bits` is two's-complement wrap-around of a `bits`-bit signed element type: the VARIANT in
+which the design matrix (entries −1, 0, 1) is held in `int8` and `design.T @ design` is formed in that type. -/
+
+def wrapInt (bits : Nat) (v : Int) : Int :=
+  if bits = 0 then v else (v + 2 ^ (bits - 1)) % (2 ^ bits : Int) - 2 ^ (bits - 1)
+
+def gramWrap (bits n : Nat) (X : Nat → Nat → Int) (a b : Nat) : Int := wrapInt bits (gram n X a b)
+
+/-- op `gramdiag <bits> <L> <events>`: the diagonal of XᵀX of `fir_design_matrix(events, L)` -/
+def runGramDiag (cur : Bool) (bits L : Nat) (evl : List Int) : String :=
+  let ev := evl.toArray
+  let n := ev.size
+  let types := eventTypes evl
+  if !designOk n (getI ev) L then "err ValueError" else
+  let p := types.length * L
+  "ok " ++ showIntList ((List.range p).map fun c => gramWrap bits n (designEntry cur (getI ev) types L) c c)
+
 def handle (args : List String) : String :=
   match args with
+  -- seqf <order> <kind> <job>: reads on one analyzer object, refused reads store nothing
+  | "seqf" :: order :: kind :: rest =>
+    match parseJob? rest with
+    | some j => " ;; ".intercalate ((Obj.reads ⟨kind, j, []⟩ (order.splitOn ",")).1)
+    | none => "bad-args"
+  -- firloop <job>: the first refused channel of the FIR loop
+  | "firloop" :: rest =>
+    match parseJob? rest with
+    | some j =>
+      "first-refused=" ++
+        (match firstRefused (fun ch => firChannel true (nPadOf j) (evOf j ch) (dataOf j ch) j.off.toNat j.L)
+                 (List.range (max j.nch 1)) with
+         | some k => toString k
+         | none => "none")
+    | none => "bad-args"
+  | ["gramdiag", bits, L, ev] =>
+    match bits.toNat?, L.toNat?, parseIntList? ev with
+    | some bits, some L, some evl => runGramDiag true bits L evl
+    | _, _, _ => "bad-args"
   | "seq" :: order :: kind :: rest =>
     match parseJob? rest with
     | some j => " ;; ".intercalate (readsC (getterValue kind j) [] (order.splitOn ",")).1
